@@ -401,6 +401,9 @@ class Prover:
         if op == 'ne':
             if ('ult', a, b) in facts or ('ult', b, a) in facts:
                 return True
+            # the address of a global object or function is never NULL
+            if b == 'null' and isinstance(a, str) and a.startswith('@'):
+                return True
             if cb is not None:
                 u = self.ub(facts, a, depth + 1)
                 if u is not None and u < cb:
